@@ -1214,7 +1214,93 @@ def c12_ble_cases(draw):
             "k": draw(st.integers(0, 5)), "double": draw(st.one_of(st.none(), st.integers(0, 20)))}
 
 
+def run_c12_ble_poll(case, R):
+    """Disconnected events: the accessory changes a subscribed characteristic while no link is up and says so with a new state number in its
+    advertisement; the library connects, reads and tells the listeners. Another change may fall anywhere inside that catch-up poll (the accessory then
+    advertises the next number): whatever the timing, the listeners end up with the accessory's last value."""
+    from bleak.backends.device import BLEDevice
+    from bleak.backends.scanner import AdvertisementData
+    from props._listeners import attach as attach_listeners, check_same as listeners_agree
+    R.nt(case.get("mid") is not None)
+    R.cls("ble-disconnected-events", "change-during-poll" if case.get("mid") is not None else "quiet-poll")
+
+    async def main(loop):
+        w = BleWorld(loop, k=case.get("k", 0), proto=True, disconnected_events=(11, 12))
+        try:
+            p = w.pairing
+            ctl = w.controller
+            dev = BLEDevice("00:11:22:33:44:55", "Sim", None)
+
+            def adv(gsn):
+                mfr = bytes([0x06, 0x31, 0x00]) + bytes.fromhex("aabbccddeeff") + struct.pack("<HHBB", 5, gsn & 0xFFFF, 1, 2) + b"\x01\x02\x03\x04"
+                ctl._device_detected(dev, AdvertisementData(local_name="Sim", manufacturer_data={76: mfr}, service_data={}, service_uuids=[], tx_power=None, rssi=-60, platform_data=()))
+            logs = attach_listeners(p)
+            w.acc.gsn = 5
+            adv(5)
+            await p.get_characteristics([(1, 10)])
+            await p.subscribe([(1, 11), (1, 12)])
+            await asyncio.sleep(30)
+            await vtime.settle(loop)
+            what = f"BLE disconnected events, second change after {case.get('mid')} reads of the catch-up poll"
+            for round_ in range(case.get("rounds", 1)):
+                if w.client is not None and w.client.is_connected:
+                    w.client.drop()
+                await vtime.settle(loop)
+                for l_ in logs:
+                    l_.clear()
+                # first change, while disconnected
+                v1 = 50 + 10 * round_
+                w.acc.chars[11]["value"] = bytes([v1])
+                w.acc.gsn += 1
+                reads = [0]
+                changed = [False]
+
+                def on_read(iid, v1=v1):
+                    reads[0] += 1
+                    if case.get("mid") is not None and not changed[0] and reads[0] > case["mid"]:
+                        # second change, during the connection the poll opened: the state number moves once more
+                        changed[0] = True
+                        w.acc.chars[11]["value"] = bytes([v1 + 1])
+                        w.acc.gsn += 1
+                w.acc.on_char_read = on_read
+                adv(w.acc.gsn if not changed[0] else w.acc.gsn)
+                await asyncio.sleep(60)
+                await vtime.settle(loop)
+                w.acc.on_char_read = None
+                # the accessory keeps advertising its current state number (after the link of the poll is gone)
+                if w.client is not None and w.client.is_connected:
+                    w.client.drop()
+                await vtime.settle(loop)
+                adv(w.acc.gsn)
+                await asyncio.sleep(60)
+                await vtime.settle(loop)
+                adv(w.acc.gsn)
+                await asyncio.sleep(60)
+                await vtime.settle(loop)
+                if not listeners_agree(R, logs, what):
+                    return
+                seen = [ev[(1, 11)]["value"] for ev in logs[0] if (1, 11) in ev]
+                want = w.acc.chars[11]["value"][0]
+                if not seen or seen[-1] != want:
+                    R.fail("C12.listener-log", f"{what} (round {round_}): the accessory holds {want} and advertises state number {w.acc.gsn}; listeners saw {seen}, "
+                           f"the pairing remembers state number {p.description.state_num if p.description else None}", kind="missing", raising_peer=True)
+                    return
+            await p.shutdown()
+        finally:
+            w.restore()
+    vtime.run(main)
+
+
+def enum_c12_ble_poll(tier):
+    yield {"mid": None}
+    for mid in range(0, 6):
+        yield {"mid": mid}
+        yield {"mid": mid, "rounds": 2, "k": 1}
+
+
 C12_BLE_LAYERS = [
+    Layer("ble-disconnected-events", run_c12_ble_poll, enumerate=enum_c12_ble_poll, exhaustive=True,
+          space="a change while disconnected and a second one after 0..5 reads of the catch-up poll (1 or 2 rounds)", min_nontrivial=10),
     Layer("ble-subscriptions-fixed", run_c12_ble, enumerate=enum_c12_ble, exhaustive=True,
           space="1..6 subscribed characteristics x {no refusal + link loss, start_notify refused once / always for each one, two refusals in two subscribe calls}", min_nontrivial=30),
     Layer("ble-subscriptions", run_c12_ble, strategy=c12_ble_cases, n={"quick": 300, "thorough": 6000}),
